@@ -2041,3 +2041,141 @@ func checkGrowPerLeaf(p *Program, r *Report, rule string) {
 		r.Violate(rule, key, p.Pos(addFn.Pos()), "the add phase never reaches the growth step", "in "+p.FuncName(addFn))
 	}
 }
+
+// ---------------------------------------------------------------------------
+// READ-IN-FOREST (R10h). Reading a position must give the zero hash for a
+// position that does not exist. A keyed store answers "absent" by itself. A
+// pointer forest selects a root by arithmetic on the position (Roots[tree])
+// and walks down: arithmetic resolves ANY number to some node, so the walk
+// has to be gated by an exact existence test. A bound that depends on the
+// leaf count only through the row count (pos >= maxPosition(TreeRows(n)))
+// cannot exclude the unpopulated tail of a row.
+//
+// existenceTests is the reviewed table of exact tests of the package:
+//   inForest(pos, numLeaves, rows) bool      - walks to the rightmost leaf below pos and compares it with numLeaves
+//   maxPositionAtRow(row, rows, numLeaves)   - last populated position of a row
+var existenceTests = map[string]bool{"inForest": true, "maxPositionAtRow": true}
+
+func checkReadInForest(p *Program, r *Report, rule string) {
+	n := 0
+	for _, e := range p.Funcs {
+		if e.Parent() != nil || e.Name() != "GetHash" || e.Signature.Recv() == nil || e.Blocks == nil || !p.owns(e) {
+			continue
+		}
+		if len(e.Params) != 2 || !isUint64(e.Params[1].Type()) {
+			continue
+		}
+		ename := p.FuncName(e)
+		reach := p.StaticReach(e)
+		reach[e] = true
+		keyed, walks := 0, 0
+		for _, g := range sortedFuncs(p, reach) {
+			if g.Blocks == nil || !p.owns(g) {
+				continue
+			}
+			for _, b := range g.Blocks {
+				for _, in := range b.Instrs {
+					if kind, method, _ := storeCall(p, in); kind == "nodes" && method == "Get" {
+						keyed++
+						continue
+					}
+					ia, ok := in.(*ssa.IndexAddr)
+					if !ok {
+						continue
+					}
+					if _, isConst := ia.Index.(*ssa.Const); isConst {
+						continue
+					}
+					_, f, isField := fieldRead(ia.X)
+					if !isField || f != "Roots" {
+						continue
+					}
+					walks++
+					n++
+					key := fmt.Sprintf("%s/%s/root-by-arithmetic#%d", ename, p.FuncName(g), walks)
+					if gd, ok := existenceGuard(p, g, b); ok {
+						r.Discharge(rule, key, posOf(p, in), "the walk from a root chosen by arithmetic is gated by the exact existence test "+gd, true)
+					} else {
+						r.Violate(rule, key, posOf(p, in), "a root is chosen by arithmetic on the position and walked without an exact existence test (reviewed tests: inForest, maxPositionAtRow) of the position against the leaf count: a position in the unpopulated tail of a row is resolved to some other node and its hash returned instead of the zero hash", "in "+p.FuncName(g)+", reached from "+ename)
+					}
+				}
+			}
+		}
+		if walks == 0 {
+			n++
+			key := ename + "/keyed-store"
+			if keyed > 0 {
+				r.Discharge(rule, key, p.Pos(e.Pos()), fmt.Sprintf("positions are read through the keyed node store only (%d look-ups): an absent key is reported as not stored", keyed), true)
+			} else {
+				r.Undecided(rule, key, p.Pos(e.Pos()), "cannot see how this position read reaches the stored nodes")
+			}
+		}
+	}
+	r.Floor(rule, "position-read entries", n, 2)
+}
+
+// existenceGuard: some guard in force at b derives from a call of a reviewed
+// existence test that receives the leaf count itself (a parameter or field
+// read named NumLeaves / numLeaves, not wrapped in a row computation) and a
+// value derived from a uint64 parameter of g.
+func existenceGuard(p *Program, g *ssa.Function, b *ssa.BasicBlock) (string, bool) {
+	isTest := func(x ssa.Value) bool {
+		c, ok := x.(*ssa.Call)
+		if !ok {
+			return false
+		}
+		sc := c.Common().StaticCallee()
+		if sc == nil || !p.owns(sc) || !existenceTests[sc.Name()] {
+			return false
+		}
+		direct, fromPos := false, false
+		for _, a := range c.Common().Args {
+			if _, f, ok := fieldRead(a); ok && f == "NumLeaves" {
+				direct = true
+			}
+			if par, ok := a.(*ssa.Parameter); ok {
+				if strings.EqualFold(par.Name(), "numLeaves") {
+					direct = true
+				} else if isUint64(par.Type()) {
+					fromPos = true
+				}
+			}
+			if flowsFrom(a, func(y ssa.Value) bool {
+				par, ok := y.(*ssa.Parameter)
+				return ok && isUint64(par.Type()) && !strings.EqualFold(par.Name(), "numLeaves")
+			}, 0, map[ssa.Value]bool{}) {
+				fromPos = true
+			}
+		}
+		return direct && fromPos
+	}
+	for _, gd := range guardsAt(b) {
+		c := gd.Cond
+		truth := gd.Truth
+		for {
+			u, ok := c.(*ssa.UnOp)
+			if !ok || u.Op != token.NOT {
+				break
+			}
+			c, truth = u.X, !truth
+		}
+		if isTest(c) && truth {
+			return c.(*ssa.Call).Common().StaticCallee().Name(), true
+		}
+		if rel, ok := relOf(gd); ok {
+			for _, side := range []ssa.Value{rel.X, rel.Y} {
+				var name string
+				if flowsFrom(side, func(y ssa.Value) bool {
+					if isTest(y) {
+						name = y.(*ssa.Call).Common().StaticCallee().Name()
+						return true
+					}
+					return false
+				}, 0, map[ssa.Value]bool{}) {
+					return name, true
+				}
+			}
+		}
+	}
+	return "", false
+}
